@@ -100,10 +100,38 @@ def build():
     }
 }
 
+// stand-in for group::GroupCtx: the one field the stage filters read
+pub struct GroupCtx { pub group_filter: FileGroupFilter }
+
+pub open spec fn filter_holds<F>(g: &FileGroup<F>, filter: &FileGroupFilter) -> bool {
+    match filter.replication {
+        Replication::Overreplicated(rf) => spec_subgroup_count(g, filter) > rf,
+        Replication::Underreplicated(rf) => spec_subgroup_count(g, filter) < rf,
+    }
+}
+
+// ---- expression slices: the post-filter closure (3rd argument of `rehash(..)`) of every stage function.
+// A stage whose output is the report (contents stage; the single stage of the --transform path) must report a class
+// iff the replication filter holds; an intermediate stage must never drop a class of an under-replication search.
+''')
+    for fn_name, final in [("group_by_contents", True), ("group_transformed", True), ("group_by_prefix", False), ("group_by_suffix", False)]:
+        fn = src.item("fn %s(" % fn_name)
+        if final:
+            ub.spec("fn %s_post_filter<F>(g: &FileGroup<F>, ctx: &GroupCtx) -> (r: bool)\n"
+                    "    ensures r == filter_holds(g, &ctx.group_filter), // @ob C06.final_filter.%s_reports_iff_filter_holds\n{\n    " % (fn_name, fn_name))
+        else:
+            ub.spec("fn %s_post_filter<F>(g: &FileGroup<F>, ctx: &GroupCtx) -> (r: bool)\n"
+                    "    ensures filter_holds(g, &ctx.group_filter) ==> r, // @ob C06.stage_filter.%s_never_drops_a_reportable_class\n"
+                    "            ctx.group_filter.replication is Underreplicated ==> r, // @ob C06.stage_filter.%s_keeps_everything_for_under_replication_search\n{\n    " % (fn_name, fn_name, fn_name))
+        ub.piece(Piece(src.call_arg(fn, "rehash", 2)))
+        ub.spec("\n}\n\n")
+    ub.spec('''
 } // verus!
 fn main() {}
 ''')
-    ub.functions = ["group::FileGroup::matches", "group::FileGroup::matches_strictly", "group::FileGroup::missing_count",
+    ub.functions = ["group::group_by_contents [slice: post-filter]", "group::group_transformed [slice: post-filter]",
+                    "group::group_by_prefix [slice: post-filter]", "group::group_by_suffix [slice: post-filter]",
+                    "group::FileGroup::matches", "group::FileGroup::matches_strictly", "group::FileGroup::missing_count",
                     "group::FileGroup::file_count", "group::FileGroup::redundant_count [slice: fast path]"]
     ub.assumptions = [
         "FileGroup::subgroup_count (= FileSubGroup::group(..).len(), IndexMap based) is an uninterpreted replica count (A6)",
